@@ -353,6 +353,7 @@ fn run(ctx: &mut Ctx) {
             g.max_depth = if big { 1 } else { 2 };
             g.max_top = if big { 2 } else { 3 };
             g.max_nested = if big { 1 } else { 2 };
+            g.allow_empty = !big;
             let (mut group, _) = g.gen_group(0, true);
             // 1 query in 6: a template aimed at the bind-join admissibility rule - an outer pattern
             // that binds ?x next to a nested group whose FILTER / BIND mentions ?x while the
